@@ -13,6 +13,7 @@ same history with the observed number of writes.
 """
 import builtins
 import io
+import json
 import logging
 import os
 import re
@@ -28,6 +29,25 @@ EXC = {"OSError": lambda: OSError(28, "No space left on device (injected)"),
        "RuntimeError": lambda: RuntimeError("injected failure"),
        "KeyboardInterrupt": lambda: KeyboardInterrupt()}
 
+PROVIDERS = ["plain", "fqn", "importuri", "globalrepo", "mmglobal"]   # None = no scope provider at all
+LINETYPES = ["ortho", "polyline"]
+SRC_EXT = {"mm_dot": "tx", "mm_pu": "tx", "model_dot": "c31"}
+
+# grammar of multi-file models: imports, every attribute flavour the model export distinguishes (name, plain
+# primitive, bool, float, list of primitives, contained object, list of objects, list mixing objects and
+# primitives, reference)
+RICH_GRAMMAR = """
+Model: imports*=Import 'model' name=ID items+=Item refs*=Ref ('mixed' mixed+=Val[','])?;
+Import: 'import' importURI=STRING;
+Item: 'item' name=ID ('=' v=INT)? (tags+=STRING[','])? (sub=Sub)? (flag?='!')? ('~' f=FLOAT)?;
+Sub: '{' vals+=INT[','] '}';
+Val: Sub | INT | STRING;
+Ref: 'ref' a=[Item:FQN] ('->' b=[Item:FQN])?;
+FQN: ID('.'ID)*;
+"""
+STRINGS = ["t0", "t1", 'a\\"b', "x|y", "{z}", "<k>", "two words", "\u00e9\u00df"]
+
+# default grammar of model inputs given as plain {"text": ...} (corpus cases of the first round)
 MODEL_GRAMMAR = """
 Model: 'model' name=ID items+=Item refs*=Ref;
 Item: 'item' name=ID ('=' v=INT)? (tags+=STRING[','])? (sub=Sub)?;
@@ -39,20 +59,24 @@ Ref: 'ref' a=[Item] ('->' b=[Item])?;
 # ---------------------------------------------------------------------------
 # inputs
 # ---------------------------------------------------------------------------
-def gen_grammar(rng):
+def gen_grammar(rng, prefix="R", ext=(), top=True, header=""):
     """a small random textX grammar: common rules with containment, references, lists, optional parts,
-    an abstract rule and a match rule; every rule starts with its own keyword (no left recursion)"""
+    an abstract rule and a match rule; every rule starts with its own keyword (no left recursion).
+    `ext`: names of rules of an imported grammar that may be used as attribute types / reference targets /
+    alternatives of the abstract rule.  Returns (text, names of the common rules)."""
     n = rng.randint(1, 5)
-    names = [f"R{i}" for i in range(n)]
+    names = [f"{prefix}{i}" for i in range(n)]
+    kw, base = f"{prefix}Kw", f"{prefix}Base"
     use_match = rng.chance(0.5)
-    use_abs = n >= 2 and rng.chance(0.6)
+    use_abs = (n >= 2 or len(ext) >= 1) and rng.chance(0.6)
+    pool = names + list(ext)
     rules = []
     for i, nm in enumerate(names):
-        parts = [f"'r{i}'", "name=ID"]
+        parts = [f"'{prefix.lower()}{i}'", "name=ID"]
         for a in range(rng.randint(0, 4)):
             k = rng.weighted([("int", 2), ("str", 2), ("cont", 3), ("contlist", 3), ("ref", 3), ("reflist", 2),
                               ("bool", 1), ("match", 2 if use_match else 0), ("abs", 2 if use_abs else 0)])
-            t = rng.choice(names)
+            t = rng.choice(pool) if ext and rng.chance(0.5) else rng.choice(names)
             an = f"a{a}"
             if k == "int":
                 p = f"{an}=INT"
@@ -69,23 +93,46 @@ def gen_grammar(rng):
             elif k == "bool":
                 p = f"{an}?='flag{a}'"
             elif k == "match":
-                p = f"{an}=Kw"
+                p = f"{an}={kw}"
             else:
-                p = f"{an}=Base"
+                p = f"{an}={base}"
             if rng.chance(0.3):
                 p = f"('k{a}' {p})?"
             parts.append(p)
         parts.append("';'")
         rules.append(f"{nm}: {' '.join(parts)};")
     if use_abs:
-        rules.append("Base: " + " | ".join(rng.sample(names, rng.randint(2, len(names)))) + ";")
+        alts = rng.sample(pool, rng.randint(min(2, len(pool)), len(pool)))
+        rules.append(f"{base}: " + " | ".join(alts) + ";")
     if use_match:
-        rules.append("Kw: 'alpha' | 'beta' | /g[a-m]+/;")
-    top = "Top: " + " ".join(f"e{i}*={nm}" for i, nm in enumerate(names)) + ";"
-    return "\n".join([top] + rules) + "\n"
+        if rng.chance(0.5):
+            rules.append(f"{kw}: 'alpha' | 'beta' | /g[a-m]+/;")
+        else:   # every expression form the match-rule renderer distinguishes
+            rules.append(f"{kw}: ('alpha' 'beta')+ | INT? 'gamma'* | {kw}B 'delta' | "
+                         f"'a long keyword that is cut short in the picture';")
+            rules.append(f"{kw}B: /h[a-m]+/ | 'eps' ID;")
+    head = [header] if header else []
+    if top:
+        head.append("Top: " + " ".join(f"e{i}*={nm}" for i, nm in enumerate(names)) + ";")
+    return "\n".join(head + rules) + "\n", names
+
+
+def gen_grammar_set(rng, multi=False, stem="input"):
+    """a grammar as a set of files: alone, or importing a library grammar (same folder or sub-folder; imported
+    rules used by plain or by qualified name)"""
+    main = f"{stem}.tx"
+    if not multi:
+        return {"files": {main: gen_grammar(rng)[0]}, "main": main}
+    sub = rng.chance(0.4)
+    lib_text, lib_rules = gen_grammar(rng, prefix="L", top=False)
+    q = "sub.lib" if sub else "lib"
+    ext = [f"{q}.{nm}" if rng.chance(0.4) else nm for nm in lib_rules]
+    text, _ = gen_grammar(rng, prefix="R", ext=ext, header=f"import {q}")
+    return {"files": {main: text, ("sub/lib.tx" if sub else "lib.tx"): lib_text}, "main": main}
 
 
 def gen_model(rng):
+    """single-file model of MODEL_GRAMMAR"""
     n = rng.randint(1, 5)
     lines = ["model m"]
     for i in range(n):
@@ -103,6 +150,61 @@ def gen_model(rng):
             s += f" -> i{rng.below(n)}"
         lines.append(s)
     return "\n".join(lines) + "\n"
+
+
+def gen_model_set(rng, multi=False, stem="input", imports_ok=True):
+    """a model of RICH_GRAMMAR as a set of files: the main file imports others (chain / diamond / cycle, a leaf
+    possibly in a sub-folder); references go to items of the own file and of directly imported files.
+    `imports_ok=False` (no scope provider): one file without imports."""
+    nfiles = rng.randint(2, 4) if multi and imports_ok else 1
+    stems = [stem] + [f"m{k}" for k in range(1, nfiles)]
+    names = [s + ".c31" for s in stems]
+    if nfiles >= 3 and rng.chance(0.4):
+        names[-1] = "sub/" + names[-1]            # a leaf in a sub-folder
+    imports = {k: set() for k in range(nfiles)}
+    for j in range(1, nfiles):
+        src = rng.below(j)                          # every file is reachable from the main file
+        imports[src].add(j)
+        for i in range(j):
+            if i != src and rng.chance(0.3):
+                imports[i].add(j)                   # ... possibly on several ways (diamond)
+    if nfiles >= 2 and rng.chance(0.25):
+        j = rng.randint(1, nfiles - 1)
+        if not names[j].startswith("sub/"):
+            imports[j].add(0)                       # cycle back to the main file
+    items = {k: [f"{stems[k]}_i{n}" for n in range(rng.randint(1, 3))] for k in range(nfiles)}
+    files = {}
+    for k in range(nfiles):
+        lines = [f'import "{names[j]}"' for j in sorted(imports[k])]
+        lines.append(f"model {stems[k]}")
+        for nm in items[k]:
+            s = f"item {nm}"
+            if rng.chance(0.5):
+                s += f" = {rng.below(100)}"
+            if rng.chance(0.4):
+                s += " " + ", ".join(f'"{rng.choice(STRINGS)}"' for _ in range(rng.randint(1, 3)))
+            if rng.chance(0.4):
+                s += " { " + ", ".join(str(rng.below(9)) for _ in range(rng.randint(1, 3))) + " }"
+            if rng.chance(0.3):
+                s += " !"
+            if rng.chance(0.3):
+                s += f" ~ {rng.below(50)}.{rng.below(10)}"
+            lines.append(s)
+        visible = list(items[k]) + [nm for j in sorted(imports[k]) for nm in items[j]]
+        for _ in range(rng.randint(0, 3)):
+            s = f"ref {rng.choice(visible)}"
+            if rng.chance(0.5):
+                s += f" -> {rng.choice(visible)}"
+            lines.append(s)
+        if k == 0 or rng.chance(0.4):
+            # the main file always has a list mixing objects and primitives (own write call in the export)
+            kinds = [0, 1 + rng.below(2)] if k == 0 else []
+            kinds += [rng.below(3) for _ in range(rng.randint(0 if kinds else 1, 2))]
+            vals = ["{ %d }" % rng.below(9) if w == 0 else str(rng.below(100)) if w == 1
+                    else f'"{rng.choice(STRINGS)}"' for w in rng.sample(kinds, len(kinds))]
+            lines.append("mixed " + ", ".join(vals))
+        files[names[k]] = "\n".join(lines) + "\n"
+    return {"files": files, "main": names[0]}
 
 
 def canon_text(s):
@@ -245,41 +347,102 @@ class Workspace:
 
     def __init__(self, case):
         use_repo()
-        from textx import generator_for_language_target, metamodel_for_language, metamodel_from_str
+        from textx import generator_for_language_target, metamodel_for_language
 
         self.case = case
         self.kind = case["kind"]
+        self.via = case.get("via", "api")
+        self.args = dict(case.get("args") or {})
         self.d = tempfile.mkdtemp(prefix="c31-")
+        try:
+            self.load(case, generator_for_language_target, metamodel_for_language)
+        except BaseException:      # an input that does not load (shrink candidates): leave nothing behind
+            self.close()
+            raise
+
+    def load(self, case, generator_for_language_target, metamodel_for_language):
         self.out = os.path.join(self.d, "out")
         os.mkdir(self.out)
         self.gen = generator_for_language_target(*GEN_KEY[self.kind])
-        self.objs = []
-        self.mm = None
+        self.objs, self.mms, self.paths, self.tpaths, self.sources = [], [], [], [], []
+        self.grammar_file = None
+        ext = SRC_EXT[self.kind]
         for i, inp in enumerate(case["inputs"]):
             ind = os.path.join(self.d, f"in{i}")
             os.mkdir(ind)
-            if self.kind == "model_dot":
-                if self.mm is None:
-                    self.mm = metamodel_from_str(MODEL_GRAMMAR)
-                path = os.path.join(ind, "input.c31")
-                with open(path, "w") as f:
-                    f.write(inp["text"])
-                self.objs.append(self.mm.model_from_file(path))
-            else:
-                path = os.path.join(ind, "input.tx")
-                with open(path, "w") as f:
-                    f.write(inp["text"])
-                self.mm = metamodel_for_language("textx")
-                self.objs.append(self.mm.model_from_file(path))
-        self.target_name = "input." + EXT[self.kind]
+            files = inp.get("files") or {f"input.{ext}": inp["text"]}
+            main = inp.get("main") or f"input.{ext}"
+            for name, text in files.items():
+                path = os.path.normpath(os.path.join(ind, name))
+                if not path.startswith(ind + os.sep):
+                    raise ValueError(f"file name {name!r} leaves the input directory")
+                os.makedirs(os.path.dirname(path), exist_ok=True)
+                with open(path, "w", encoding="utf-8") as f:
+                    f.write(text)
+            path = os.path.join(ind, main)
+            mm = self.model_metamodel(ind) if self.kind == "model_dot" else metamodel_for_language("textx")
+            self.mms.append(mm)
+            self.objs.append(mm.model_from_file(path))
+            self.paths.append(path)
+            self.sources.append({n.split("/")[0] for n in files})
+            tname = os.path.splitext(os.path.basename(main))[0] + "." + EXT[self.kind]
+            self.tpaths.append(os.path.join(ind if case.get("beside") else self.out, tname))
+        self.mm = self.mms[0] if self.mms else None
+        self.targets = list(dict.fromkeys(self.tpaths))          # the distinct output files of the history
 
-    def target(self):
-        if self.case.get("beside"):
-            return os.path.join(self.d, "in0", self.target_name)
-        return os.path.join(self.out, self.target_name)
+    def model_metamodel(self, ind):
+        from textx import metamodel_from_str
+        import textx.scoping.providers as sp
+
+        grammar = self.case.get("grammar") or MODEL_GRAMMAR
+        prov = self.case.get("provider")
+        if self.via == "cli" and self.grammar_file is None:
+            self.grammar_file = os.path.join(self.d, "grammar.tx")
+            with open(self.grammar_file, "w", encoding="utf-8") as f:
+                f.write(grammar)
+        mm = metamodel_from_str(grammar, **({"global_repository": True} if prov == "mmglobal" else {}))
+        if prov in ("plain", "mmglobal"):
+            mm.register_scope_providers({"*.*": sp.PlainNameImportURI()})
+        elif prov == "fqn":
+            mm.register_scope_providers({"*.*": sp.FQNImportURI()})
+        elif prov == "importuri":
+            mm.register_scope_providers({"*.*": sp.ImportURI(sp.PlainName())})
+        elif prov == "globalrepo":
+            mm.register_scope_providers({"*.*": sp.PlainNameGlobalRepo(os.path.join(ind, "**", "*.c31"),
+                                                                         glob_args={"recursive": True})})
+        elif prov is not None:
+            raise ValueError(f"unknown provider {prov!r}")
+        return mm
+
+    def tname(self, i):
+        return os.path.basename(self.tpaths[i])
 
     def call(self, i, out_dir, overwrite):
-        self.gen(self.mm, self.objs[i], out_dir, overwrite, False)
+        if self.via == "cli":
+            return self.call_cli(i, out_dir, overwrite)
+        self.gen(self.mms[i], self.objs[i], out_dir, overwrite, False, **self.args)
+
+    def call_cli(self, i, out_dir, overwrite):
+        """`textx generate [--grammar g.tx] --target T [-o DIR] [--overwrite] FILE [--linetype X]` in process"""
+        from click.testing import CliRunner
+        from textx.cli import textx as textx_cmd
+
+        argv = ["generate"]
+        if self.kind == "model_dot":
+            argv += ["--grammar", self.grammar_file]
+        argv += ["--target", GEN_KEY[self.kind][1]]
+        if out_dir:
+            argv += ["-o", out_dir]
+        if overwrite:
+            argv.append("--overwrite")
+        argv.append(self.paths[i])
+        for k, v in self.args.items():
+            argv += [f"--{k}", str(v)]
+        res = CliRunner().invoke(textx_cmd, argv)
+        if res.exception is not None and not (isinstance(res.exception, SystemExit) and res.exit_code == 0):
+            raise res.exception
+        if res.exit_code != 0:
+            raise SystemExit(res.exit_code)
 
     def reference(self):
         """fault-free export of every input into its own directory: content and number of writes"""
@@ -288,28 +451,51 @@ class Workspace:
             rd = os.path.join(self.d, f"ref{i}")
             os.mkdir(rd)
             with Layer(self.d, "none", "OSError") as lay:
-                self.call(i, rd, True)
-            with open(os.path.join(rd, self.target_name), encoding="utf-8") as f:
+                self.gen(self.mms[i], self.objs[i], rd, True, False, **self.args)
+            with open(os.path.join(rd, self.tname(i)), encoding="utf-8") as f:
                 refs.append({"text": canon_text(f.read()), "writes": lay.writes})
         return refs
 
-    def listing(self):
-        """files of the output directory / input directory 0 other than the input"""
-        d = os.path.dirname(self.target())
-        return sorted(x for x in os.listdir(d) if x not in ("input.tx", "input.c31"))
+    def state(self, tpath, texts):
+        """absent / complete:i (the complete output of input i for this file) / truncated:n / other:n"""
+        if not os.path.lexists(tpath):
+            return "absent"
+        if not os.path.isfile(tpath):
+            return "other:-1"
+        with open(tpath, encoding="utf-8", errors="replace") as f:
+            content = canon_text(f.read())
+        mine = [(i, t) for i, t in enumerate(texts) if self.tpaths[i] == tpath]
+        for i, t in mine:
+            if content == t:
+                return f"complete:{i}"
+        if any(t.startswith(content) for _, t in mine):
+            return "truncated:%d" % len(content)
+        return "other:%d" % len(content)
+
+    def extras(self):
+        """everything in the folders of the output files that is neither an input nor an output file"""
+        found = []
+        for d in dict.fromkeys(os.path.dirname(t) for t in self.targets):
+            keep = {os.path.basename(t) for t in self.targets if os.path.dirname(t) == d}
+            for i, p in enumerate(self.paths):
+                if os.path.dirname(p) == d:
+                    keep |= self.sources[i]
+            found += [x for x in sorted(os.listdir(d)) if x not in keep]
+        return found
 
     def close(self):
         shutil.rmtree(self.d, ignore_errors=True)
 
 
-def count_writes(kind, text):
-    """number of write calls the real exporter makes for this input (sizes the crash-point enumeration)"""
+def count_writes(case):
+    """number of write calls the real exporter makes for input 0 of this (partial) case (sizes the crash-point
+    enumeration)"""
     ws = None
     glog = logging.getLogger("textx.generators")
     was_disabled = glog.disabled
     glog.disabled = True
     try:
-        ws = Workspace({"kind": kind, "inputs": [{"text": text}]})
+        ws = Workspace(dict(case, inputs=case["inputs"][:1], via="api", beside=False))
         return ws.reference()[0]["writes"]
     except Exception:
         return None
@@ -325,19 +511,32 @@ class Prop(Check):
     THEOREMS = ["GenFile.C31_atomic", "GenFile.C31_complete", "GenFile.C31_history", "GenFile.C31_no_skip",
                 "GenFile.C31_skip_iff", "GenFile.C31_pinned_false", "GenFile.C31_pinned_overwrite_false"]
     DRIVER = "Drivers/GenFile.lean"
-    QUICK_CASES = 12       # inputs (about 300 cases: one Lean driver process); every write of every input gets its own case (see gen)
+    QUICK_CASES = 12       # inputs (about 400-520 cases); every write of every input gets its own case (see gen)
     THOROUGH_CASES = 200
-    PROCS_QUICK = 4
-    PROCS_THOROUGH = 4
-    RULE = ("inputs = random textX grammars (dot and PlantUML metamodel export) and random models (model dot export); "
-            "for every input one case per write call k (failure at write k, half of the cases after a partial write) "
-            "plus the open / flush-close / replace / no-failure points; each case is a history of 1..4 runs on the same "
-            "output file (second input variant, --overwrite on/off, OSError / RuntimeError / KeyboardInterrupt); "
-            "non-trivial = an injected failure fired while the output was being produced")
+    PROCS_QUICK = 3
+    PROCS_THOROUGH = 3
+    RULE = ("inputs = sets of files: random textX grammars, alone or importing a library grammar (dot and PlantUML "
+            "metamodel export, PlantUML with/without the linetype argument) and random models (model dot export) of a "
+            "grammar with every attribute flavour the export distinguishes, as one file without scope provider, one file "
+            "with an import scope provider (empty model repository) or 2-4 files importing each other (chain / diamond / "
+            "cycle / sub-folder; PlainNameImportURI, FQNImportURI, ImportURI, PlainNameGlobalRepo, global_repository) "
+            "whose export writes one cluster per file; the shapes are fixed per input position, so every quick run has "
+            "all of them; for every input one case per write call k (failure at write k, half of the cases after a "
+            "partial write) plus the open / flush-close / replace / no-failure points; each case is a history of 1..4 "
+            "runs on one or two output files (second input = other version of the same source or another source file; "
+            "--overwrite on/off; with or without --output-path; OSError / RuntimeError / KeyboardInterrupt; 15 % of the "
+            "histories through the `textx generate` command line); non-trivial = an injected failure fired while the "
+            "output was being produced")
     MODELLED = ("hand-modelled: export.py _open_output as used by metamodel_export/model_export, generators.py gen_file "
-                "(GenFile.exportNew/genFile/runAll); tie X: per run outcome (done/skipped/failed), state of the target "
-                "(absent / complete output of input i / anything else) and leftover files vs the model on the same "
-                "history; not exhibited: OS-level durability (power loss, non-atomic rename), failures of os.remove")
+                "(GenFile.exportNew/genFile/runAll; an export = the sequence of its write calls, any failing call "
+                "propagates); tie X: per run outcome (done/skipped/failed), state of every output file of the history "
+                "(absent / complete output of input i / anything else) and leftover files vs the model "
+                "(GenFile.traceOn) on the same history; the bodies of metamodel_export_tofile / model_export_to_file are "
+                "not modelled statement by statement: that each of their write calls lets a failure propagate is "
+                "observed on the implementation (a swallowed failure is an outcome mismatch and an oracle failure); "
+                "not exhibited: OS-level durability (power loss, non-atomic rename), failures of os.remove, a stale "
+                "temporary file of an earlier killed process, export of a repository object (`repo=` argument, not "
+                "reachable through a registered generator), grammars with `reference` to other registered languages")
     ASSUMPTIONS = [
         "a failure is an exception raised by open / write / flush / close / os.replace (or by the renderer between two writes)",
         "os.replace is atomic (POSIX rename semantics)",
@@ -345,23 +544,50 @@ class Prop(Check):
     ]
 
     # ------------------------------------------------------------------ gen
+    # shapes of the inputs, fixed per position so that every quick run contains every shape; the content is random
+    #   metamodel exports: j-th grammar input of a kind: grammar alone / importing a library grammar, alternating
+    #   PlantUML: `linetype` argument absent, ortho, polyline, absent
+    #   model exports: no scope provider / several files with clusters (plain names) / scope provider but nothing
+    #   imported (repository present and empty) / several files with a provider drawn from the others
+    MODEL_SHAPES = [(None, False), ("plain", True), ("plain", False), ("*", True)]
+
+    def gen_input_shape(self, r, kind, j):
+        """(case-level settings, generator of an input by stem)"""
+        if kind == "model_dot":
+            prov, multi = self.MODEL_SHAPES[j % 4] if j < 4 else (r.choice([None] + PROVIDERS + ["*"]), r.chance(0.7))
+            if prov == "*":
+                prov = r.choice(PROVIDERS[1:])
+            settings = {"grammar": RICH_GRAMMAR, "provider": prov}
+            return settings, lambda stem: gen_model_set(r, multi, stem, imports_ok=prov is not None)
+        multi = j % 2 == 1 if j < 4 else r.chance(0.5)
+        settings = {}
+        if kind == "mm_pu":
+            lt = [None, "ortho", "polyline", None][j % 4] if j < 4 else r.choice([None] + LINETYPES)
+            if lt:
+                settings["args"] = {"linetype": lt}
+        return settings, lambda stem: gen_grammar_set(r, multi, stem)
+
     def gen(self, rng, n, tier):
         for i in range(n):
             r = rng.fork(f"input{i}")
             kind = KINDS[i % 3]
-            mk = gen_model if kind == "model_dot" else gen_grammar
-            inputs = [{"text": mk(r)}]
+            settings, mk = self.gen_input_shape(r, kind, i // 3)
+            inputs = [mk("input")]
             if r.chance(0.6):
-                inputs.append({"text": mk(r)})
-            nw = count_writes(kind, inputs[0]["text"])
+                # the second input: another version of the same source file (same output file), or — one time
+                # in three — a different source file (a second output file in the same history)
+                inputs.append(mk("other" if r.chance(0.25) else "input"))
+            stub = dict(settings, kind=kind, inputs=inputs)
+            nw = count_writes(stub)
             if nw is None:
                 nw = 8
             points = [["write", k, bool((k + i) % 2)] for k in range(nw)]
             points += ["open", "close", "replace", "none", ["write", nw, False]]
             for p in points:
-                yield self.gen_history(r, kind, inputs, p)
+                yield self.gen_history(r, stub, p)
 
-    def gen_history(self, r, kind, inputs, point):
+    def gen_history(self, r, stub, point):
+        inputs = stub["inputs"]
         exc = r.weighted([("OSError", 6), ("RuntimeError", 2), ("KeyboardInterrupt", 1)])
         runs = []
         shape = r.weighted([("crash-retry", 4), ("done-crash-skip", 3), ("crash", 1), ("random", 3)])
@@ -384,57 +610,54 @@ class Prop(Check):
                 k = r.below(len(runs))
                 if runs[k]["crash"] == "none":
                     runs[k] = dict(runs[k], crash=r.choice(["open", "close", "replace", ["write", r.below(6), r.chance(0.5)]]))
-        case = {"kind": kind, "inputs": inputs, "runs": runs}
-        if nin == 1 and r.chance(0.25):
+        case = dict(stub, runs=runs)
+        if r.chance(0.25 if nin == 1 else 0.1):
             case["beside"] = True     # no --output-path: the file is generated next to the input
+        if (case["kind"] != "model_dot" or case.get("provider") is None) and r.chance(0.15):
+            case["via"] = "cli"       # through `textx generate` (scope providers cannot be given there)
         return case
 
     # ----------------------------------------------------------------- impl
     def impl(self, case):
         ws = Workspace(case)
-        glog = logging.getLogger("textx.generators")
-        was_disabled = glog.disabled
-        glog.disabled = True     # "-> file", "-- NOT overwriting" chatter
+        quiet = [logging.getLogger(n) for n in ("textx.generators", "textx.cli.generate")]
+        was_disabled = [g.disabled for g in quiet]
+        for g in quiet:
+            g.disabled = True     # "-> file", "-- NOT overwriting" chatter
         try:
             refs = ws.reference()
             texts = [x["text"] for x in refs]
             steps = []
-            out_dir = None if case.get("beside") else ws.out
             for run in case["runs"]:
-                before = ws.listing()
+                i = run["input"]
+                out_dir = None if case.get("beside") else ws.out
                 with Layer(ws.d, run["crash"], run.get("exc", "OSError")) as lay:
                     raised = None
                     try:
-                        ws.call(run["input"], out_dir, run["overwrite"])
+                        ws.call(i, out_dir, run["overwrite"])
                     except BaseException as e:   # the injected failure (or anything the generator raises)
                         raised = type(e).__name__
-                tgt = ws.target()
-                if os.path.exists(tgt):
-                    with open(tgt, encoding="utf-8", errors="replace") as f:
-                        content = canon_text(f.read())
-                    state = "other:%d" % len(content)
-                    for i, t in enumerate(texts):
-                        if content == t:
-                            state = f"complete:{i}"
-                            break
-                    if state.startswith("other") and any(t.startswith(content) for t in texts):
-                        state = "truncated:%d" % len(content)
-                else:
-                    state = "absent"
+                states = [ws.state(t, texts) for t in ws.targets]
                 touched = any(e[0] in ("open", "replace", "rename") for e in lay.events)
                 steps.append({
                     "raised": raised,
                     "triggered": lay.triggered,
                     "touched": touched,
-                    "state": state,
-                    "extra": [x for x in ws.listing() if x != ws.target_name],
+                    "state": states[ws.targets.index(ws.tpaths[i])],
+                    "states": states,
+                    "extra": ws.extras(),
                     "writes": lay.writes,
                     "events": [e for e in lay.events if e[0] != "write!"][:12],
                 })
+            paths = [ws.targets.index(t) for t in ws.tpaths]
+            # inputs with the same output file and the same complete output are the same content
+            canon = [min(j for j in range(len(texts)) if paths[j] == paths[i] and texts[j] == texts[i])
+                     for i in range(len(texts))]
             return {"writes": [x["writes"] for x in refs], "sizes": [len(t) for t in texts],
-                    "same": len(texts) == 2 and texts[0] == texts[1], "steps": steps}
+                    "paths": paths, "canon": canon, "steps": steps}
         finally:
-            glog.disabled = was_disabled
+            for g, w in zip(quiet, was_disabled):
+                g.disabled = w
             ws.close()
 
     # ---------------------------------------------------------------- model
@@ -444,40 +667,47 @@ class Prop(Check):
             return "failed"
         return "done" if step["touched"] else "skipped"
 
+    @staticmethod
+    def chunks(obs, i):
+        """chunk ids of the complete output of input i (shared by inputs with identical output for the same file)"""
+        return [1000 * obs["canon"][i] + j for j in range(obs["writes"][i])]
+
     def model_req(self, case, obs):
         runs = []
         for run, st in zip(case["runs"], obs["steps"]):
             i = run["input"]
             n = obs["writes"][i]
-            # identical texts of two variants are the same content: share the chunk ids
-            base = 0 if obs["same"] else 1000 * i
             crash = run["crash"] if st["triggered"] or run["crash"] == "none" or self.unreachable(run["crash"], n) else None
             if crash is None:
                 # the failure point was not reached although the run did write: the writer is invisible to the injection
                 crash = "none"
-            runs.append({"path": 0, "chunks": [base + j for j in range(n)], "overwrite": run["overwrite"], "crash": crash})
-        return {"op": "history", "algo": "new", "runs": runs}
+            runs.append({"path": obs["paths"][i], "chunks": self.chunks(obs, i), "overwrite": run["overwrite"],
+                         "crash": crash})
+        return {"op": "history", "algo": "new", "runs": runs, "paths": sorted(set(obs["paths"]))}
 
     @staticmethod
     def unreachable(crash, n):
         return isinstance(crash, list) and crash[1] >= n
 
     def model_states(self, case, obs, out):
-        res = []
+        """per step: (outcome, [state of every output file], [temporary present])"""
         fulls = {}
-        for i, n in enumerate(obs["writes"]):
-            base = 0 if obs["same"] else 1000 * i
-            fulls.setdefault(tuple(base + j for j in range(n)), i)
+        for i in range(len(obs["writes"])):
+            fulls.setdefault((obs["paths"][i], tuple(self.chunks(obs, i))), obs["canon"][i])
+        res = []
         for st in out["steps"]:
-            if st["target"] is None:
-                state = "absent"
-            else:
-                pieces = st["target"]
-                if all(p[0] == "f" for p in pieces) and tuple(p[1] for p in pieces) in fulls:
-                    state = "complete:%d" % fulls[tuple(p[1] for p in pieces)]
+            states, tmps = [], []
+            for p, ent in enumerate(st["all"]):
+                pieces = ent["target"]
+                if pieces is None:
+                    state = "absent"
+                elif all(x[0] == "f" for x in pieces) and (p, tuple(x[1] for x in pieces)) in fulls:
+                    state = "complete:%d" % fulls[(p, tuple(x[1] for x in pieces))]
                 else:
                     state = "partial"
-            res.append((st["outcome"], state, st["tmp"]))
+                states.append(state)
+                tmps.append(ent["tmp"])
+            res.append((st["outcome"], states, tmps))
         return res
 
     @staticmethod
@@ -487,24 +717,29 @@ class Prop(Check):
     def compare(self, case, obs, out):
         if "err" in out:
             return f"model rejected the request: {out}"
-        for k, (st, (mo, ms, mtmp)) in enumerate(zip(obs["steps"], self.model_states(case, obs, out))):
+        for k, (st, (mo, mstates, mtmps)) in enumerate(zip(obs["steps"], self.model_states(case, obs, out))):
             io_ = self.outcome(st)
             if io_ != mo:
                 return f"run {k}: implementation {io_} (raised {st['raised']}), model {mo}"
-            if self.norm_state(st["state"]) != ms:
-                return f"run {k}: target is {st['state']} after the run, model says {ms}"
-            if bool(st["extra"]) != mtmp:
-                return f"run {k}: leftover files {st['extra']}, model says temporary present = {mtmp}"
+            for p, (s, ms) in enumerate(zip(st["states"], mstates)):
+                if self.norm_state(s) != ms:
+                    return f"run {k}: output file {p} is {s} after the run, model says {ms}"
+            if bool(st["extra"]) != any(mtmps):
+                return f"run {k}: leftover files {st['extra']}, model says temporary present = {any(mtmps)}"
         return None
 
     # --------------------------------------------------------------- oracle
     def oracle(self, case, obs):
-        prev = "absent"
+        prevs = ["absent"] * len(set(obs["paths"]))
         for k, (run, st) in enumerate(zip(case["runs"], obs["steps"])):
-            state = st["state"]
+            own = obs["paths"][run["input"]]
+            prev, state = prevs[own], st["state"]
             good = state == "absent" or state.startswith("complete")
             if st["extra"]:
                 return f"run {k}: files left behind next to the output: {st['extra']} (after {run['crash']}, raised {st['raised']})"
+            for p, (a, b) in enumerate(zip(prevs, st["states"])):
+                if p != own and a != b:
+                    return f"run {k} (for output file {own}) changed output file {p} from {a} to {b}"
             if st["raised"]:
                 if not st["triggered"]:
                     return f"run {k}: the generator raised {st['raised']} without an injected failure"
@@ -514,10 +749,13 @@ class Prop(Check):
                 if state != prev:
                     return f"run {k}: failure at {run['crash']} changed the output file from {prev} to {state}"
             else:
+                if st["triggered"] and not state.startswith("complete"):
+                    return (f"run {k}: the injected failure at {run['crash']} was swallowed: the generator returned normally "
+                            f"and the output file is {state} (complete would be {obs['sizes'][run['input']]} characters)")
                 if st["triggered"]:
                     return f"run {k}: the injected failure at {run['crash']} was swallowed (generator returned normally), output is {state}"
                 if st["touched"]:
-                    want = "complete:%d" % (0 if obs["same"] else run["input"])
+                    want = "complete:%d" % obs["canon"][run["input"]]
                     if state != want:
                         return f"run {k}: generator returned normally but the output is {state}, expected {want}"
                     if not run["overwrite"] and prev != "absent":
@@ -530,7 +768,7 @@ class Prop(Check):
                         return f"run {k}: a partially written file ({prev}) was skipped as already generated"
                     if state != prev:
                         return f"run {k}: skipped but the output changed from {prev} to {state}"
-            prev = state
+            prevs = list(st["states"])
         return None
 
     # ------------------------------------------------------------- the rest
@@ -545,18 +783,46 @@ class Prop(Check):
                 yield dict(case, runs=runs[:i] + runs[i + 1:])
         if len(case["inputs"]) > 1:
             yield dict(case, inputs=case["inputs"][:1], runs=[dict(r, input=0) for r in runs])
+        for key in ("via", "beside", "args"):
+            if case.get(key):
+                yield {k: v for k, v in case.items() if k != key}
         for i, r in enumerate(runs):
             if r.get("exc", "OSError") != "OSError":
                 yield dict(case, runs=runs[:i] + [dict(r, exc="OSError")] + runs[i + 1:])
             if isinstance(r["crash"], list) and r["crash"][1] > 0:
                 for k in (0, r["crash"][1] // 2, r["crash"][1] - 1):
                     yield dict(case, runs=runs[:i] + [dict(r, crash=["write", k, r["crash"][2]])] + runs[i + 1:])
+        # smaller file sets: drop a file nobody needs / a line of a file (candidates that no longer load are
+        # rejected by the runner: the harness reports them as crashed)
+        for i, inp in enumerate(case["inputs"]):
+            files = inp.get("files")
+            if not files:
+                continue
+
+            def with_files(new):
+                return dict(case, inputs=case["inputs"][:i] + [dict(inp, files=new)] + case["inputs"][i + 1:])
+
+            for name in files:
+                if name != inp.get("main"):
+                    rest = {n: "".join(l for l in t.splitlines(True) if name not in l)
+                            for n, t in files.items() if n != name}
+                    yield with_files(rest)
+            for name, text in files.items():
+                lines = text.splitlines(True)
+                if len(lines) > 1:
+                    for k in range(len(lines) - 1, -1, -1):
+                        yield with_files(dict(files, **{name: "".join(lines[:k] + lines[k + 1:])}))
 
     def sample_view(self, case, obs):
-        return {"kind": case["kind"], "runs": case["runs"], "input0": case["inputs"][0]["text"][:200],
-                "impl": obs if not isinstance(obs, dict) or "steps" not in obs else
-                {"writes": obs["writes"], "steps": [{k: s[k] for k in ("raised", "triggered", "state", "extra", "events")}
-                                                    for s in obs["steps"]]}}
+        inp = case["inputs"][0]
+        text = inp["text"] if "text" in inp else inp["files"][inp["main"]]
+        view = {"kind": case["kind"], "runs": case["runs"], "input0": text[:200],
+                "files0": sorted(inp.get("files") or []),
+                "settings": {k: case[k] for k in ("provider", "args", "via", "beside") if case.get(k)}}
+        view["impl"] = obs if not isinstance(obs, dict) or "steps" not in obs else {
+            "writes": obs["writes"], "paths": obs["paths"],
+            "steps": [{k: s[k] for k in ("raised", "triggered", "states", "extra", "events")} for s in obs["steps"]]}
+        return view
 
     def extra_search(self, rng, tier, broken):
         return list(self.gen(rng, 12, tier))
@@ -564,13 +830,27 @@ class Prop(Check):
     def extra_evidence(self, cases, obs, model_outs):
         dist = {"runs": 0, "failed": 0, "done": 0, "skipped": 0, "fired_at_write": 0, "fired_partial_write": 0,
                 "fired_open": 0, "fired_close": 0, "fired_replace": 0, "not_reached": 0, "by_kind": {}, "by_exc": {},
-                "writes_per_export_max": 0, "inputs": 0}
+                "writes_per_export_max": 0, "inputs": 0, "by_provider": {}, "multi_file_inputs": 0,
+                "two_output_files": 0, "via_cli": 0, "with_linetype": 0, "beside": 0,
+                "fired_in_cluster_export": 0}
         seen_inputs = set()
         for c, o in zip(cases, obs):
             if not isinstance(o, dict) or "steps" not in o:
                 continue
             dist["by_kind"][c["kind"]] = dist["by_kind"].get(c["kind"], 0) + 1
-            seen_inputs.add(c["inputs"][0]["text"])
+            inp = c["inputs"][0]
+            key = json.dumps(inp, sort_keys=True)
+            multi = len(inp.get("files") or ()) > 1
+            if key not in seen_inputs:
+                seen_inputs.add(key)
+                dist["multi_file_inputs"] += multi
+            if c["kind"] == "model_dot":
+                pv = str(c.get("provider"))
+                dist["by_provider"][pv] = dist["by_provider"].get(pv, 0) + 1
+            dist["two_output_files"] += len(set(o["paths"])) > 1
+            dist["via_cli"] += c.get("via") == "cli"
+            dist["with_linetype"] += bool(c.get("args"))
+            dist["beside"] += bool(c.get("beside"))
             dist["writes_per_export_max"] = max(dist["writes_per_export_max"], max(o["writes"]))
             for run, st in zip(c["runs"], o["steps"]):
                 dist["runs"] += 1
@@ -581,6 +861,7 @@ class Prop(Check):
                     if isinstance(cr, list):
                         dist["fired_at_write"] += 1
                         dist["fired_partial_write"] += bool(cr[2])
+                        dist["fired_in_cluster_export"] += c["kind"] == "model_dot" and multi and run["input"] == 0
                     else:
                         dist["fired_" + cr] += 1
                 elif run["crash"] != "none":
